@@ -72,8 +72,10 @@ def containedIn (p o : PortSet) : Bool :=
 /-- `PortSet.Intersection` (numeric ports only, as coded) -/
 def inter (p o : PortSet) : PortSet := { p with ports := CSet.inter p.ports o.ports }
 
-/-- `PortSet.IsAll` -/
-def isAll (p : PortSet) : Bool := p.equal (mk' true)
+/-- `PortSet.IsAll`: the numeric ports are the full range and no named port is excluded. The named
+ports held are ignored: the full range covers whatever number a name resolves to (as
+`containedIn` already assumes). -/
+def isAll (p : PortSet) : Bool := CSet.equal p.ports [⟨minPort, maxPort⟩] && p.excluded.isEmpty
 
 /-- `PortSet.String` -/
 def toStr (p : PortSet) : String :=
